@@ -1633,11 +1633,25 @@ func vC05MethodSpellings(t *testing.T, out *vEmitter) {
 			_, _, verifier = vCsrfRaw(e.opts.Cookie.Secret, c.Value)
 		}
 		out.Obs("method-spelling", true, vL(vS(m), vI(int64(l.Start.Status)), vBool(sent), vS(l.Method), vBool(l.Challenge != ""), vBool(verifier != "" && l.Challenge == verifier)))
+		sum := sha256.Sum256([]byte(verifier))
+		s256 := base64.RawURLEncoding.EncodeToString(sum[:])
+		{
+			obs := "other"
+			switch {
+			case !sent:
+				obs = "refused"
+			case l.Method == "" && l.Challenge == "" && verifier == "":
+				obs = "none"
+			case l.Method == "plain" && l.Challenge == verifier && verifier != "":
+				obs = "plain"
+			case l.Method == "S256" && l.Challenge == s256 && verifier != "":
+				obs = "s256"
+			}
+			out.Case("method-spelling", true, vY(obs), vL("pkce_method", vS(m)))
+		}
 		if !sent {
 			continue // refused: nothing was sent to the browser
 		}
-		sum := sha256.Sum256([]byte(verifier))
-		s256 := base64.RawURLEncoding.EncodeToString(sum[:])
 		det := map[string]interface{}{"configured_method": m, "declared_method": l.Method, "challenge_equals_verifier": l.Challenge == verifier,
 			"challenge_is_s256_of_verifier": l.Challenge == s256, "location": l.Start.Location()}
 		if verifier != "" && l.Method != "plain" && (strings.Contains(l.Start.Location(), verifier) || strings.Contains(l.Start.Body, verifier)) {
